@@ -309,7 +309,10 @@ class TCPPacketGenerator(Device, OutMixIn):
 
         # start a new timer for this segment and doubling the RTO
         self.rto *= 2
-        self.timers[packet_id].restart(self.rto)
+        # over a path without delay the retransmission may already have been
+        # acknowledged (and its timer released) inside resend_packet()
+        if packet_id in self.timers:
+            self.timers[packet_id].restart(self.rto)
 
     def put(self, ack: Packet):
         """Upon receiving an acknowledgement packet"""
